@@ -11,7 +11,7 @@ from vf.gen.histproj import HistProject
 
 
 class History:
-	def __init__(self, r: random.Random, shape: str, workdir: str, name: str = 'h') -> None:
+	def __init__(self, r: random.Random, shape: str, workdir: str, name: str = 'h', own_grammar: bool = False) -> None:
 		self.r = r
 		self.hp = HistProject(shape)
 		self.root = os.path.join(workdir, name)
@@ -21,11 +21,16 @@ class History:
 		# half of the projects configure a template directory of their own that requests includes through emit_depends
 		self.user_templates = r.random() < 0.5
 		self.output_dirs = ['out/']
+		# a grammar file of the project's own (edited during the history) instead of the stock one
+		self.own_grammar = own_grammar
+		self.grammar_variant = 0
 		self.log: list[list] = []
 		self.edit_seq = 0
 		# per module key: sequence number of the last edit / touch, and of the last (successful) output write
 		self.last_change: dict[str, int] = {k: 0 for k in self.hp.names}
 		self.write_all()
+		if self.own_grammar:
+			cli.write_grammar(self.root, 0, self.tick())
 		self.write_config()
 
 	# -- primitives
@@ -41,7 +46,12 @@ class History:
 	def write_config(self) -> None:
 		di = None if self.cache_enabled else {'rogw.tranp.cache.cache.CacheSetting': 'vf.cachecfg.cache_off'}
 		tdirs = [cli.write_user_templates(self.root)] if self.user_templates else None
-		cli.write_config(self.root, [f'{self.hp.pkg}/**/*.py'], self.output_dirs, di=di, template_dirs=tdirs)
+		cli.write_config(self.root, [f'{self.hp.pkg}/**/*.py'], self.output_dirs, di=di, template_dirs=tdirs, grammar=os.path.join(self.root, 'grammar.lark') if self.own_grammar else None)
+
+	def edit_grammar(self, variant: int | None = None) -> None:
+		self.grammar_variant = (1 - self.grammar_variant) if variant is None else variant
+		cli.write_grammar(self.root, self.grammar_variant, self.tick())
+		self.log.append(['edit-grammar', self.grammar_variant])
 
 	def edit(self, key: str, variant: dict) -> None:
 		self.hp.variants[key] = variant
@@ -93,6 +103,19 @@ class History:
 			os.remove(log)
 		return p, events
 
+	def run_edit_run(self, force: bool, key: str, variant: dict):
+		"""run; edit(key, variant); run -- all three inside one interpreter process."""
+		self.hp.variants[key] = variant
+		t = self.tick()
+		name = self.hp.names[key]
+		rel = name.replace('.', os.sep) + '.py'
+		args = ['-f'] if force else []
+		p = cli.run_plan(self.root, [['run', args], ['write', rel, self.hp.source(key), t], ['run', args]])
+		self.edit_seq += 1
+		self.last_change[key] = self.edit_seq
+		self.log.append(['run+edit+run in one process', key, variant, {'failed': cli.failed(p)}])
+		return p
+
 	def outputs(self) -> dict[str, str]:
 		return cli.read_outputs(self.root)
 
@@ -103,11 +126,12 @@ class History:
 		try:
 			cli.write_sources(ref, self.hp.sources())
 			tdirs = [cli.write_user_templates(ref)] if self.user_templates else None
-			cli.write_config(ref, [f'{self.hp.pkg}/**/*.py'], self.output_dirs, template_dirs=tdirs)
+			gram = cli.write_grammar(ref, self.grammar_variant) if self.own_grammar else None
+			cli.write_config(ref, [f'{self.hp.pkg}/**/*.py'], self.output_dirs, template_dirs=tdirs, grammar=gram)
 			p = cli.run_cli(ref, ['-f'])
 			return cli.read_outputs(ref), cli.failed(p), (p.stdout + p.stderr)[-600:]
 		finally:
 			shutil.rmtree(ref, ignore_errors=True)
 
 	def describe(self) -> dict:
-		return {'shape': self.hp.shape, 'variants': {k: dict(v) for k, v in self.hp.variants.items()}, 'log': self.log}
+		return {'shape': self.hp.shape, 'own_grammar': self.own_grammar, 'grammar_variant': self.grammar_variant, 'variants': {k: dict(v) for k, v in self.hp.variants.items()}, 'log': self.log}
